@@ -78,7 +78,7 @@ def run_pipeline(case, world, idx, op, results, rep, cpus):
                       'join raised %s' % o3.brief(), tb=o3.tb)]
         svs, _ = check_state(world, True, op)
         vs.extend(svs)
-        po = oracle_for(world, op_j)
+        po = oracle_for(world, op_j, strict=True)
         if o2.res is None or o3.res is None or len(o3.res.cols) < 3:
             return vs
         if len(o1.res.rows) == 0:
